@@ -30,7 +30,7 @@ ASSUMPTIONS = [
     "subdomain/interface order is whatever mdg.subdomains()/interfaces() return (their sorting is C24's clause)",
     "values are read only for blocks written since their (re-)creation; stale data left by removed variables is not constrained",
 ]
-PROBES = ["observation_sparse", "observation_end", "zero_size_block", "create_after_remove", "same_name_two_creations", "remove_by_name", "remove_by_md_variable", "remove_by_variable",
+PROBES = ["observation_sparse", "observation_end", "caller_mutates_vector_after_set", "caller_mutates_returned_vector", "zero_size_block", "create_after_remove", "same_name_two_creations", "remove_by_name", "remove_by_md_variable", "remove_by_variable",
           "interface_variable", "face_or_node_dofs", "grids_passed_out_of_order", "additive_write", "subset_set_get", "rejected_duplicate_name",
           "rejected_unknown_variable", "rejected_dof_out_of_range", "rejected_both_grid_kinds", "rejected_no_grids", "rejected_bad_dof_type",
           "layout_ge_6_blocks", "empty_system_after_removals", "rejected_remove_after_live_prefix", "caller_reuses_and_mutates_dof_info_dict"]
@@ -265,7 +265,11 @@ def run_history_c05(ch, tr: Trace) -> None:
             counter[0] += 1
             vals.append(np.arange(b["size"], dtype=float) + 100.0 * counter[0])
         vec = np.concatenate(vals) if vals else np.empty(0)
-        es.set_variable_values(vec.copy(), arg, additive=additive, **kwi)
+        handed = vec.copy()
+        es.set_variable_values(handed, arg, additive=additive, **kwi)
+        if ch.flag(1, 4):
+            handed += 5000.0  # the caller reuses its vector: what was written must not be aliased with it
+            tr.probe("caller_mutates_vector_after_set")
         for b, v in zip(sub, vals):
             key = (b["var"].id, loc)
             written[key] = written[key] + v if additive else v
@@ -273,6 +277,11 @@ def run_history_c05(ch, tr: Trace) -> None:
             tr.probe("additive_write")
         got = es.get_variable_values(arg, **kwi)
         exp = np.concatenate([written[(b["var"].id, loc)] for b in sub]) if sub else np.empty(0)
+        if got.size and ch.flag(1, 4):
+            got_seen = got.copy()
+            got += 7000.0  # ... and scribbles on what it read
+            got = got_seen
+            tr.probe("caller_mutates_returned_vector")
         if not np.array_equal(got, exp):
             raise Violation("set_then_get_roundtrip", f"set then get for {[label(b) for b in sub]} ({'additive' if additive else 'overwrite'}, {dkey}): got {got.tolist()}, expected {exp.tolist()}")
         # cross-check: every written live block, read individually and all together in global order
